@@ -385,6 +385,16 @@ fn ok_suite(suite: &str, a: &[&str]) -> Option<String> {
             })
         }
         "ok_tri_contains" => verdict(|| Triangle::new(pt(a[0], a[1]), pt(a[2], a[3]), pt(a[4], a[5])).contains(pt(a[6], a[7]))),
+        // internals reached through the add-only `verif_hooks` feature (src/primitives/verif_hooks.rs)
+        "ok_linear_equation" => {
+            let l = Line::new(pt(a[0], a[1]), pt(a[2], a[3]));
+            verdict(|| embedded_graphics::primitives::verif_hooks::linear_equation(l, pt(a[4], a[5])))
+        }
+        "ok_line_intersection" => {
+            let l1 = Line::new(pt(a[0], a[1]), pt(a[2], a[3]));
+            let l2 = Line::new(pt(a[4], a[5]), pt(a[6], a[7]));
+            verdict(|| embedded_graphics::primitives::verif_hooks::line_intersection(l1, l2))
+        }
         "ok_measure" | "ok_draw_plain" => {
             // custom mono font: x y baseline n underline cw ch sp bl uo uh
             use embedded_graphics::mono_font::{mapping::ASCII, DecorationDimensions, MonoFont, MonoTextStyleBuilder};
